@@ -81,9 +81,26 @@ def rand_val(kind, rng, opname='', pos=0):
     return rng.choice(LD_GRID)
 
 
+# MIR allows every scale 1..255 (MIR_scale_t, MIR_MAX_SCALE); only 1/2/4/8 exist in hardware, all the others go through the
+# index*scale lowering of simplify_op and the address combiner.  C20 (shared generator) keeps its own stream.
+WIDE_SCALES = [False]
+EDGE_SCALES = [3, 5, 6, 7, 9, 10, 12, 15, 16, 17, 24, 31, 32, 33, 63, 64, 65, 100, 127, 128, 129, 192, 253, 254, 255]
+
+
+def pick_scale(rng):
+    if not WIDE_SCALES[0]:
+        return rng.choice([1, 2, 4, 8])
+    x = rng.random()
+    if x < 0.4:
+        return rng.choice([1, 2, 4, 8])
+    if x < 0.65:
+        return rng.choice(EDGE_SCALES)
+    return rng.randint(1, 255)
+
+
 def mem_desc(rng, ty, forms=FORMS):
     form = rng.choice(forms)
-    scale = rng.choice([1, 2, 4, 8])
+    scale = pick_scale(rng)
     disp = rng.choice([0, 8, -8, 24, 1000, -129, -128, 0x7fffffff, -0x80000000, 0x80000000, -0x80000001, 0xffffffff, 127, 128, 1 << 33,
                        -(1 << 40) + 3]) if 'd' in form else 0
     index = rng.choice([0, 1, -1, 3, -5, 1000, 0x7fffffff, -0x80000000, 1 << 32]) if 'i' in form else 0
